@@ -1,16 +1,24 @@
 #!/bin/bash
 # Regenerates every evidence file with the thorough tier on /repo's current tree, rebuilds
 # DESIGN.md section A from the records, validates MANIFEST/evidence against the schemas.
-# Run from /verif; takes about 90 minutes. Nothing here is registered in MANIFEST.json.
+# Run from /verif; takes about an hour with four parallel jobs. Nothing here is registered in MANIFEST.json.
 cd /verif || exit 1
 python3 gen_manifest.py || exit 1
 rc=0
 : > /tmp/finalize.log
-for id in $(python3 -c "import json;print(' '.join(c['property_id'] for c in json.load(open('MANIFEST.json'))['checks']))"); do
+ids=$(python3 -c "import json;print(' '.join(c['property_id'] for c in json.load(open('MANIFEST.json'))['checks']))")
+./check.sh C01 quick > /dev/null 2>&1   # builds bin/tmsa once, before the parallel runs
+one() {
+  id=$1
   ./check.sh $id thorough > /tmp/finalize_$id.log 2>&1; r=$?
-  echo "$id rc=$r $(grep -c '^KNOWN-FINDING' /tmp/finalize_$id.log) known, $(grep -c '^VIOLATION' /tmp/finalize_$id.log) violations, $(grep -o 'thorough: .*' /tmp/finalize_$id.log | head -1)" | tee -a /tmp/finalize.log
-  [ $r -ne 0 ] && rc=1
-done
+  echo "$id rc=$r $(grep -c '^KNOWN-FINDING' /tmp/finalize_$id.log) known, $(grep -c '^VIOLATION' /tmp/finalize_$id.log) violations, $(grep -o 'thorough: .*' /tmp/finalize_$id.log | head -1)" >> /tmp/finalize.log
+  return $r
+}
+export -f one
+# four properties at a time (each run applies its registered changes to scratch copies one by one)
+printf '%s\n' $ids | xargs -P ${FINALIZE_JOBS:-4} -I{} bash -c 'one {}' || rc=1
+sort -o /tmp/finalize.log /tmp/finalize.log; cat /tmp/finalize.log
+grep -qv "rc=0" /tmp/finalize.log && rc=1
 python3 tools/splice_design.py
 python3-vt - <<'PY'
 import json,jsonschema,glob
